@@ -1272,6 +1272,16 @@ package twig
 //@ func (*CoreExtension).filterSplit props: C19
 //@   atcall[C19] strings.Split a0 == fn_toString_0(value) && a1 == ite(len(args) > 0 && typeIs(args[0], "string"), unboxAs(args[0], "string"), " ")
 //@   ensures[C19] len(args) <= 1 && ret1 == nil ==> typeIs(ret0, "[]string") && unboxAs(ret0, "[]string") == sp
+// merge on a list: a new list that starts with the elements of the list, in order (the arguments'
+// elements follow) - never the list itself with something appended to it
+//@ define mergeV() ufV_valueOf(value)
+//@ define mergeIsList() (ufi_kind(mergeV()) == 23 || ufi_kind(mergeV()) == 17)
+//@ define mergePrefix(R, N) (forall j int :: 0 <= j && j < N ==> R[j] == ufI_iface(ufV_index(mergeV(), j)))
+//@ func (*CoreExtension).filterMerge props: C19
+//@   loop 1 invariant[C19] 0 <= i && len(result) == i && i <= ufi_rvlen(mergeV()) && (freshArr(result) || len(result) == 0) && mergePrefix(result, i)
+//@   loop 2 invariant[C19] len(result) >= ufi_rvlen(mergeV()) && (freshArr(result) || len(result) == 0) && mergePrefix(result, ufi_rvlen(mergeV()))
+//@   loop 3 invariant[C19] len(result) >= ufi_rvlen(mergeV()) && (freshArr(result) || len(result) == 0) && mergePrefix(result, ufi_rvlen(mergeV()))
+//@   ensures[C19] mergeIsList() ==> ret1 == nil && typeIs(ret0, "[]interface{}") && (freshArr(asList(ret0)) || len(asList(ret0)) == 0) && len(asList(ret0)) >= ufi_rvlen(mergeV()) && mergePrefix(asList(ret0), ufi_rvlen(mergeV()))
 // keys of a typed map (reflection path): a new generic list with at most one element per entry
 //@ func (*CoreExtension).filterKeys props: C19
 //@   loop 2 invariant[C19] 0 - 1 <= rangeindex && rangeindex < len(rangeover()) && len(rangeover()) == ufi_rvlen(rv) && len(keys) <= rangeindex + 1 && (freshArr(keys) || len(keys) == 0)
